@@ -37,7 +37,7 @@ a4a3235 C18
 7409b1d C18
 25f9667 C19
 06b0dfc C19
-4055d97 C19
+4055d97 C18
 649779a C13
 459ad16 C13
 1b8802c C05
